@@ -189,6 +189,11 @@ pub(crate) fn translate_block(
                     semantics.mov(&mut instruction_graph)
                 }
                 capstone::x86_insn::X86_INS_MOVQ => semantics.movq(&mut instruction_graph),
+                // capstone gives the SSE2 scalar move and the string
+                // instruction the same id
+                capstone::x86_insn::X86_INS_MOVSD if semantics.has_xmm_register_operand()? => {
+                    semantics.movsd_sse(&mut instruction_graph)
+                }
                 capstone::x86_insn::X86_INS_MOVSB
                 | capstone::x86_insn::X86_INS_MOVSW
                 | capstone::x86_insn::X86_INS_MOVSD
